@@ -28,10 +28,33 @@ BOXES = [
                  ('vpcc_bytes(b.vpcc)', 'vpcc_len(b.vpcc)')]),
 ]
 
+def opt(field, fn):
+    return ('match b.%s { Some(x) => %s_bytes(x), None => Seq::<u8>::empty() }' % (field, fn), '(match b.%s { Some(x) => %s_len(x), None => 0 })' % (field, fn), '', 'opt:' + field)
 
-def gen():
+CONTAINERS = [
+    dict(name='stbl', ty='StblBox', req='stbl_wire(b)', cond='stbl_exact(b)', doc='SampleTableBox(\'stbl\'): stsd, stts, ctts?, stss?, stsc, stsz, stco?, co64? in the order the muxer writes them',
+         lemma_pre=['lemma_stsd_bytes_len(b.stsd);', 'lemma_stts_prefix_len(b.stts, b.stts.entries@.len() as int);', 'if b.ctts is Some { lemma_ctts_prefix_len(b.ctts->Some_0, b.ctts->Some_0.entries@.len() as int); }',
+                    'if b.stss is Some { lemma_stss_prefix_len(b.stss->Some_0, b.stss->Some_0.entries@.len() as int); }', 'lemma_stsc_prefix_len(b.stsc, b.stsc.entries@.len() as int);',
+                    'lemma_stsz_prefix_len(b.stsz, b.stsz.sample_sizes@.len() as int);', 'if b.stco is Some { lemma_stco_prefix_len(b.stco->Some_0, b.stco->Some_0.entries@.len() as int); }',
+                    'if b.co64 is Some { lemma_co64_prefix_len(b.co64->Some_0, b.co64->Some_0.entries@.len() as int); }'],
+         pieces=[('hdr_bytes(stbl_len(b) as u64, 0x7374626c)', 8), ('stsd_bytes(b.stsd)', 'stsd_len(b.stsd)'), ('stts_bytes(b.stts)', 'stts_len(b.stts)'), opt('ctts', 'ctts'), opt('stss', 'stss'),
+                 ('stsc_bytes(b.stsc)', 'stsc_len(b.stsc)'), ('stsz_bytes(b.stsz)', 'stsz_len(b.stsz)'), opt('stco', 'stco'), opt('co64', 'co64')]),
+    dict(name='minf', ty='MinfBox', req='minf_wire(b)', cond='minf_exact(b)', doc='MediaInformationBox(\'minf\'): vmhd? smhd? dinf stbl',
+         lemma_pre=['if b.vmhd is Some { lemma_vmhd_pre_len(b.vmhd->Some_0); }', 'if b.smhd is Some { lemma_smhd_pre_len(b.smhd->Some_0); }', 'lemma_dinf_bytes_len(b.dinf);', 'lemma_stbl_pre(b.stbl);'],
+         pieces=[('hdr_bytes(minf_len(b) as u64, 0x6d696e66)', 8), opt('vmhd', 'vmhd'), opt('smhd', 'smhd'), ('dinf_bytes(b.dinf)', 'dinf_len(b.dinf)'), ('stbl_bytes(b.stbl)', 'stbl_len(b.stbl)')]),
+    dict(name='mdia', ty='MdiaBox', req='mdia_wire(b)', cond='mdia_exact(b)', doc='MediaBox(\'mdia\'): mdhd hdlr minf',
+         lemma_pre=['lemma_mdhd_pre_len(b.mdhd);', 'lemma_hdlr_bytes_len(b.hdlr);', 'lemma_minf_pre(b.minf);'],
+         pieces=[('hdr_bytes(mdia_len(b) as u64, 0x6d646961)', 8), ('mdhd_bytes(b.mdhd)', 'mdhd_len(b.mdhd)'), ('hdlr_bytes(b.hdlr)', 'hdlr_len(b.hdlr)'), ('minf_bytes(b.minf)', 'minf_len(b.minf)')]),
+    dict(name='trak', ty='TrakBox', req='trak_wire(b)', cond='trak_exact(b)', doc='TrackBox(\'trak\'): tkhd (edts, meta: absent in what the muxer writes) mdia',
+         lemma_pre=['lemma_tkhd_pre_len(b.tkhd);', 'lemma_mdia_pre(b.mdia);'],
+         pieces=[('hdr_bytes(trak_len(b) as u64, 0x7472616b)', 8), ('tkhd_bytes(b.tkhd)', 'tkhd_len(b.tkhd)'),
+                 ('Seq::<u8>::empty()', 0, '', 'skip'), ('Seq::<u8>::empty()', 0, '', 'skip'), ('mdia_bytes(b.mdia)', 'mdia_len(b.mdia)')]),
+]
+
+
+def gen(BOXES, title_spec, title_vpc, zeros_def=True):
     spec = ['// GENERATED by tool/gen_pieces.py -- do not edit. Reference bytes of the straight-line sample-entry encoders, one piece per stream write.\n',
-            'pub open spec fn zeros(n: nat) -> Seq<u8> { Seq::new(n, |i: int| 0u8) }\n']
+            ] + (['pub open spec fn zeros(n: nat) -> Seq<u8> { Seq::new(n, |i: int| 0u8) }\n'] if zeros_def else [])
     vpc = ['# GENERATED by tool/gen_pieces.py -- do not edit. Byte-exact encoders (C04, C05, C14): after the k-th stream write the output holds exactly X_pre(k).\n']
     for bx in BOXES:
         n, ty, ps = bx['name'], bx['ty'], bx['pieces']
@@ -48,21 +71,32 @@ def gen():
             else: acc_e.append(p[1])
             cum.append(' + '.join([str(acc_c)] + acc_e))
         spec.append('pub proof fn lemma_%s_pre(b: %s)\n    requires %s\n    ensures %s\n{\n    broadcast use lemma_be_bytes_len;\n    reveal_with_fuel(%s_pre, %d);\n%s}\n'
-                    % (n, ty, bx['req'], ',\n            '.join('%s_pre(b, %d).len() == %s' % (n, k, c) for k, c in enumerate(cum)), n, N + 2,
+                    % (n, ty, (bx['req'] + (' && ' + bx['cond'] if bx.get('cond') else '')), ',\n            '.join('%s_pre(b, %d).len() == %s' % (n, k, c) for k, c in enumerate(cum)), n, N + 2,
                        ''.join('    %s\n' % l for l in bx.get('lemma_pre', []))))
-        vpc.append('\nfn %s::write_box\n  ensures\n    [C04+C05+C14.%s.encode]  r is Ok ==> final(writer).data() == wr(old(writer).data(), old(writer).pos() as int, %s_bytes(*self))\n' % (ty, n, n))
-        vpc.append('  proof body-start\n    lemma_%s_pre(*self);\n%s  end\n' % (n, ''.join('    %s\n' % l for l in bx.get('extra_start', []))))
-        vpc.append('  proof [C04+C05.encode.step] after-write #1\n    assert(writer.data() == wr(old(writer).data(), old(writer).pos() as int, %s_pre(*self, 0)));\n  end\n' % n)
+        cond = bx.get('cond')                                     # exactness condition (a predicate over *self), None = always
+        cs = cond.replace('(b)', '(*self)') if cond else None
+        vpc.append('\nfn %s::write_box\n  ensures\n    [C04+C05+C14.%s.encode]  r is Ok%s ==> final(writer).data() == wr(old(writer).data(), old(writer).pos() as int, %s_bytes(*self))\n'
+                   % (ty, n, (' && ' + cs) if cs else '', n))
+        opts = ''.join('    assert(self.%s is None ==> %s_pre(*self, %d) =~= %s_pre(*self, %d));\n' % (p_[3][4:], n, k, n, k - 1)
+                       for k, p_ in enumerate(ps) if len(p_) > 3 and str(p_[3]).startswith('opt:'))
+        opts += ''.join('    assert(%s_pre(*self, %d) =~= %s_pre(*self, %d));\n' % (n, k, n, k - 1) for k, p_ in enumerate(ps) if len(p_) > 3 and p_[3] == 'skip')
+        wrap = (lambda body: '    if %s {\n%s    }\n' % (cs, body)) if cs else (lambda body: body)
+        vpc.append('  proof body-start\n%s  end\n' % wrap('    lemma_%s_pre(*self);\n%s%s' % (n, ''.join('    %s\n' % l for l in bx.get('extra_start', [])), opts)))
+        vpc.append('  proof [C04+C05.encode.step] after-write #1\n%s  end\n' % wrap('    assert(writer.data() == wr(old(writer).data(), old(writer).pos() as int, %s_pre(*self, 0)));\n' % n))
         for k in range(1, N + 1):
-            extra = ''.join('    %s\n' % l for l in ps[k][2:])
-            vpc.append('  proof [C04+C05.encode.step] after-write #%d\n%s    lemma_wr_wr(old(writer).data(), old(writer).pos() as int, %s_pre(*self, %d), %s_piece(*self, %d));\n'
-                       '    assert(writer.data() == wr(old(writer).data(), old(writer).pos() as int, %s_pre(*self, %d)));\n    assert(writer.pos() == old(writer).pos() + %s_pre(*self, %d).len());\n  end\n'
-                       % (k + 1, extra, n, k - 1, n, k, n, k, n, k))
+            extra = ''.join('    %s\n' % l for l in ps[k][2:3] if l)
+            vpc.append('  proof [C04+C05.encode.step] after-write #%d\n%s  end\n' % (k + 1, wrap(
+                       '%s    lemma_wr_wr(old(writer).data(), old(writer).pos() as int, %s_pre(*self, %d), %s_piece(*self, %d));\n'
+                       '    assert(writer.data() == wr(old(writer).data(), old(writer).pos() as int, %s_pre(*self, %d)));\n    assert(writer.pos() == old(writer).pos() + %s_pre(*self, %d).len());\n'
+                       % (extra, n, k - 1, n, k, n, k, n, k))))
     return ''.join(spec), ''.join(vpc)
 
 
 if __name__ == '__main__':
-    s, v = gen()
+    s, v = gen(BOXES, '', '')
     open(os.path.join(VERIF, 'spec', 'layouts_pieces.rs'), 'w').write(s)
     open(os.path.join(VERIF, 'contracts', 'pieces.vpc'), 'w').write(v)
-    print('wrote spec/layouts_pieces.rs, contracts/pieces.vpc')
+    s, v = gen(CONTAINERS, '', '', zeros_def=False)
+    open(os.path.join(VERIF, 'spec', 'layouts_pieces_containers.rs'), 'w').write(s)
+    open(os.path.join(VERIF, 'contracts', 'pieces_containers.vpc'), 'w').write(v)
+    print('wrote spec/layouts_pieces*.rs, contracts/pieces*.vpc')
